@@ -602,7 +602,13 @@ def stream_skeleton(ctx, acc, docs):
             spec_ok = bool(r[0]) and bool(r[1])
             if kind == "parse":
                 if not ok:
-                    continue                    # judged as a violation by stream D
+                    # the violation itself is reported by stream D; here: the document machine must refuse it too
+                    if spec_ok:
+                        acc.res["disagreements"].append(dict({"stream": "K-parse", "input": inp, "what": "the Coq document machine accepts "
+                                                         "(doc_parse and ns_ok) an output that expat refuses", "document": text[:3000]}, **rp))
+                    else:
+                        acc.count("K_outputs_refused_by_expat_and_by_the_document_machine")
+                    continue
                 if spec_ok and r[2] and r[3] == n:
                     acc.count("K_outputs_accepted_by_the_document_machine(ns_ok, tt in TTML namespace, element count = expat)")
                 else:
@@ -1289,7 +1295,8 @@ def run(ctx):
     res["samples"] = [x[1] for x in list(res["nontrivial"]) if x[0] == "S"][:5]
     res["rule"] = ("S: attribute values containing one of & < > \" '; P: distinct (writer, node lists) whose payload is accepted by "
                    "both parsers with the model's events; R: distinct (ids, references) structures equal to the model up to "
-                   "renaming; D / H: distinct documents that pass both strict parsers and every document-level clause")
+                   "renaming; D / H: distinct documents that pass both strict parsers and every document-level clause; K: distinct documents "
+                   "the Coq renderer reproduces byte for byte from the captured tree")
     res["clauses"] = {
         "theorem": ["every attribute value, serialized by the output formatter or by quoteattr, parses back to itself under the "
                     "strict attribute-value grammar (all strings of XML Chars)",
@@ -1300,9 +1307,19 @@ def run(ctx):
                     "whole traversal of DFXPWriter (DfxpDoc.summarize) and of LegacyDFXPWriter (legacy_summarize): ok_refs = 0 on "
                     "their domains (ids and references only: _partial)",
                     "span / legacy attribute dictionaries have valid, pairwise distinct names",
-                    "SinglePositioningDFXPWriter: set transformation modelled; one region; ok_refs = 0 on an input-level domain (_partial)"],
-        "correspondence_only": ["whole-document well-formedness, namespaces, head / body, div / p counts, begin / end (expat and lxml, "
-                                "strict, no recovery)", "bs4 tree building and prettify indentation",
+                    "SinglePositioningDFXPWriter: set transformation modelled; one region; ok_refs = 0 on an input-level domain (_partial)",
+                    "WHOLE DOCUMENT (wave 7): the rendered document string (DfxpSkel.dfxp_document: prolog, tt / head / styling / layout / "
+                    "body / div / p, indentation, empty-element tags, sorted escaped attributes, stripped payloads) is accepted by the "
+                    "specification's document machine (XML declaration, one root element, white space around it) for every tree with "
+                    "valid attribute dictionaries and well-formed payloads; composed with the payload theorem from caption nodes; the "
+                    "first event is the root tt with xmlns = TTML namespace and xml:lang = the given language code",
+                    "the content machine is compositional (accepted content is accepted in any element context); attribute validity is "
+                    "invariant under bs4's sorting"],
+        "correspondence_only": ["that the tree handed to prettify carries exactly the attribute dictionaries / payloads of the models "
+                                "(stream K renders the captured tree with the Coq renderer: equal to the output byte for byte)",
+                                "namespace well-formedness of the whole document (Coq ns_ok executed on every output, agrees with expat; "
+                                "not proved for all documents), div / p counts, begin / end (expat and lxml, strict, no recovery)",
+                                "bs4 tree building (which attributes reach which tag)",
                                 "the spec parsers themselves are validated against lxml (accept/reject and decoded events) on writer "
                                 "outputs, on malformed literals and on malformed content",
                                 "that cleanup_regions / get_positioning_info equal the model's filter / lookup (stream R)",
